@@ -137,6 +137,45 @@ Proof.
   - cbn [orb]. exact IH.
 Qed.
 
+(* any(value is v for v in <declared members>): identity with a declared member; on this universe (no
+   mix-in: a member equals itself only) it is what `value in <declared members>` decides with == *)
+Definition is_mem_b (cls : pystr) (x : pyval) (m : pystr * pyval) : bool :=
+  match x with PEnum c' n' _ => pystr_eqb c' cls && pystr_eqb n' (fst m) | _ => false end.
+
+Lemma mapM_is_member cls x ms :
+  mapM (py_is_member x) (map (member_val cls) ms) = Ok (map (is_mem_b cls x) ms).
+Proof.
+  induction ms as [|[k z] t IH]; [reflexivity|].
+  cbn [map mapM]. unfold member_val at 1. cbn [py_is_member fst snd bind]. rewrite IH. reflexivity.
+Qed.
+
+Lemma any_is_enum cls c n y ms :
+  py_any_is (PEnum c n y) (PList (map (member_val cls) ms)) = Ok (pystr_eqb c cls && alist_has ms n).
+Proof.
+  unfold py_any_is. cbn [py_seq_items bind]. rewrite mapM_is_member. cbn [bind]. f_equal.
+  unfold alist_has. induction ms as [|[k z] t IH].
+  - cbn. rewrite andb_false_r. reflexivity.
+  - cbn [map existsb is_mem_b fst alist_get]. rewrite IH. rewrite (pystr_eqb_sym k n).
+    destruct (pystr_eqb c cls); destruct (pystr_eqb n k); reflexivity.
+Qed.
+
+Lemma any_is_nonenum cls x ms :
+  py_is_enum_member x = false -> py_any_is x (PList (map (member_val cls) ms)) = Ok false.
+Proof.
+  intros Hx. unfold py_any_is. cbn [py_seq_items bind]. rewrite mapM_is_member. cbn [bind]. f_equal.
+  induction ms as [|m t IH]; [reflexivity|]. cbn [map existsb]. rewrite IH.
+  destruct x; try discriminate Hx; reflexivity.
+Qed.
+
+(* the two membership tests coincide here: the bridging statements below are the ones that held for `in` *)
+Lemma any_is_eq_in cls x ms :
+  py_any_is x (PList (map (member_val cls) ms)) = Ok (py_in x (map (member_val cls) ms)).
+Proof.
+  destruct x as [|b|n|s|l|l|l|fr l|kv|c n y|c at'|tg r];
+    try (rewrite any_is_nonenum by reflexivity; rewrite in_members_nonenum by (intros ? ? ?; discriminate); reflexivity).
+  rewrite any_is_enum, in_members_enum. reflexivity.
+Qed.
+
 Lemma class_lookup cls all n :
   dict_get (map (fun m => (PStr (fst m), member_val cls m)) all) (PStr n) =
   match alist_get all n with Some x => Some (PEnum cls n x) | None => None end.
@@ -186,14 +225,15 @@ Section Bridge.
     change (enumcls_self cls members all bv (s2p "_is_enum")) with (PBool true).
     change (enumcls_self cls members all bv (s2p "_valid_enum_values")) with (PList (map (member_val cls) members)).
     cbn [py_truthy bind]. rewrite setcomp_names, listcomp_names. cbn [bind].
-    cbn [py_in_dyn validate_weak]. unfold py_in_hashed, py_in_lit.
-    (* only a str is looked up in the set of names (and a str is hashable) *)
+    cbn [py_in_dyn validate_weak]. unfold py_in_hashed.
+    (* only a str that is not itself a member is looked up in the set of names (and a str is hashable);
+       a member is accepted by identity with a declared member *)
     destruct v as [|b|n|s|l|l|l|fr l|kv|c n y|c at'|tg r].
     all: try (change (py_isinstance _ [K_str]) with false).
-    all: try (change (py_isinstance (PStr s) [K_str]) with true; cbn [py_hashable']; rewrite in_dedup).
-    all: try (rewrite in_members_nonenum by (intros ? ? ?; discriminate)).
+    all: try (change (py_isinstance (PStr s) [K_str]) with true; cbn [py_is_enum_member py_hashable']; rewrite in_dedup).
+    all: try (rewrite any_is_nonenum by reflexivity).
     all: try rewrite in_names_str.
-    all: try rewrite in_members_enum.
+    all: try rewrite any_is_enum.
     all: cbn [py_not bind py_and negb].
     all: try tail.
     - (* str *) destruct (alist_has members s); cbn [negb bind]; [reflexivity|tail].
